@@ -49,6 +49,11 @@ class World:
             order = names[:]
             rng.shuffle(order)
         levels = {v: i for i, v in enumerate(order)}
+        # hostile default: the insertion order of `vars` differs from
+        # the level order (as it does after any reordering)
+        keys = list(levels)
+        rng.shuffle(keys)
+        levels = {v: levels[v] for v in keys}
         self.bdd = _b.BDD(levels) if kind == 'bdd' else _a.BDD(levels)
         self.raw = raw(self.bdd)
         self.sp = Space(names)
